@@ -4,7 +4,7 @@ import re
 from analysis import (Prov, Guards, fmt, fmt_short, walk, roots, short, comparison, find_calls, callee_matches,
                       must_pass, writes_into, aliases_of, linear, normalised_cmp, const_int_of, cmp_intervals, propagate)
 from facts import AnchorError, strip_closure
-from harness import Rule
+from harness import Rule, guarded
 import c13
 
 PID = "C14"
@@ -360,5 +360,5 @@ def r4(ctx):
 
 
 def run(ctx):
-    a, b = r2_r3(ctx)
-    return [r1(ctx), a, b, r4(ctx)]
+    G = lambda l, f, *a: guarded("C14." + l, f, ctx, *a)
+    return G("R1", r1) + G("R2-R3", r2_r3) + G("R4", r4)
